@@ -24,7 +24,7 @@ import (
 func init() {
 	core.Register(&core.Check{
 		ID:   "C06",
-		Rule: "part A (selection): every subset of 7 declared media-type keys, each entry accepting only its own index, x 11 Content-Type headers x every index as body: the accepted index identifies the selected entry, compared with the reference precedence (exact string, without parameters, type/*, */*); undeclared types, missing required and optional empty bodies. part B (decoding + request reading): JSON bodies over C01 atoms/pairs and over object schemas with readOnly/writeOnly/required combinations at two depths x presence subsets x ExcludeReadOnlyValidations; form-urlencoded, multipart and text/plain bodies produced by independent encoders from typed values; verdict compared with the reference evaluator in as-request mode. Distinct = (declared set|schema, header, body, options); non-trivial = a body was sent and a schema applied.",
+		Rule: "part A (selection): every subset of 7 declared media-type keys, each entry accepting only its own index, x 11 Content-Type headers x every index as body: the accepted index identifies the selected entry, compared with the reference precedence (exact string, without parameters, type/*, */*); undeclared types, missing required and optional empty bodies. part B (decoding + request reading): JSON bodies over C01 atoms/pairs and over object schemas with readOnly/writeOnly/required combinations at two depths x presence subsets x ExcludeReadOnlyValidations; form-urlencoded, multipart and text/plain bodies produced by independent encoders from typed values; form-urlencoded bodies with per-property encodings (form exploded / not, spaceDelimited, pipeDelimited on two array properties: 16 combinations) under 8 ways of writing the object schema (plain, type:object beside allOf/anyOf/oneOf/nested compositions, own property beside allOf, composition without type:object); oneOf/anyOf over array values whose item schemas declare defaults; verdict compared with the reference evaluator in as-request mode. Distinct = (declared set|schema, header, body, options); non-trivial = a body was sent and a schema applied.",
 		Assumptions: []string{
 			"reference precedence and as-request reading as stated by the property; absent Content-Type with */* declared is contested (no decoder can be chosen)",
 			"multipart primitives are sent as text/plain parts for strings and application/json parts for other types",
@@ -167,6 +167,12 @@ func runC06(c *core.Ctx) {
 	for _, fs := range c06FormShapes() {
 		if c.Mine(idx) {
 			c06Forms(c, fs)
+		}
+		idx++
+	}
+	for wi := 0; wi < 8; wi++ {
+		if c.Mine(idx) {
+			c06Encodings(c, wi)
 		}
 		idx++
 	}
@@ -316,6 +322,19 @@ func c06RequestSchemas() []c06schema {
 			}
 			out = append(out, c06schema{s, []any{gen.S{}, gen.S{"a": "x"}, gen.S{"b": 1.0}, gen.S{"b": 0.0}, gen.S{"a": "x", "b": 2.0, "c": true}, gen.S{"c": false}}})
 		}
+	}
+	// alternatives over ARRAY values whose item schemas declare defaults: trying an alternative must not leave its
+	// defaults in the items the next alternative sees
+	altA := gen.S{"type": "array", "items": gen.S{"type": "object", "properties": gen.S{"x": gen.S{"type": "integer", "default": 1.0}, "kind": gen.S{"type": "string", "enum": gen.Arr("a")}}, "required": gen.Arr("kind")}}
+	altB := gen.S{"type": "array", "items": gen.S{"type": "object", "properties": gen.S{"y": gen.S{"type": "integer"}}, "additionalProperties": false}, "minItems": 1.0}
+	listVals := []any{gen.Arr(gen.S{"y": 2.0}), gen.Arr(gen.S{"kind": "a"}), gen.Arr(gen.S{"kind": "a", "x": 5.0}), gen.Arr(gen.S{"y": 2.0}, gen.S{"y": 3.0}), gen.Arr(gen.S{"z": 1.0}), gen.Arr(gen.S{"kind": "b"})}
+	for _, kw := range []string{"oneOf", "anyOf"} {
+		out = append(out, c06schema{gen.S{kw: gen.Arr(altA, altB)}, listVals})
+		var wrapped []any
+		for _, v := range listVals {
+			wrapped = append(wrapped, gen.S{"list": v})
+		}
+		out = append(out, c06schema{gen.S{"type": "object", "properties": gen.S{"list": gen.S{kw: gen.Arr(altA, altB)}}}, wrapped})
 	}
 	// read-only inside allOf / additionalProperties
 	ro := gen.S{"type": "string", "readOnly": true}
@@ -622,4 +641,104 @@ func c06MergeDefaults(schema gen.S, v any, o refeval.Opts) any {
 		out[k] = gen.CloneValue(d)
 	}
 	return out
+}
+
+// ---- per-property encodings of form-urlencoded bodies ----
+
+// c06Encodings: array and object properties with an Encoding Object (style/explode), the object schema written plainly
+// and under allOf/anyOf/oneOf; bodies serialised by the independent style serializer; verdict = reference (as request).
+func c06Encodings(c *core.Ctx, wi int) {
+	str := gen.S{"type": "string"}
+	integer := gen.S{"type": "integer"}
+	props := gen.S{"tags": gen.S{"type": "array", "items": str, "minItems": 2.0}, "ids": gen.S{"type": "array", "items": integer, "maxItems": 3.0},
+		"s": str}
+	// (object-valued form properties are refused by the decoder as "unsupported schema": not generated)
+	base := gen.S{"type": "object", "properties": props}
+	wrappers := []struct {
+		name string
+		wrap func(gen.S) gen.S
+	}{
+		{"plain", func(s gen.S) gen.S { return s }},
+		{"object+allOf[S]", func(s gen.S) gen.S { return gen.S{"type": "object", "allOf": gen.Arr(s)} }},
+		{"object+allOf[S,object]", func(s gen.S) gen.S { return gen.S{"type": "object", "allOf": gen.Arr(s, gen.S{"type": "object"})} }},
+		{"object+anyOf[S]", func(s gen.S) gen.S { return gen.S{"type": "object", "anyOf": gen.Arr(s)} }},
+		{"object+oneOf[S]", func(s gen.S) gen.S { return gen.S{"type": "object", "oneOf": gen.Arr(s)} }},
+		{"object+allOf[anyOf[S]]", func(s gen.S) gen.S { return gen.S{"type": "object", "allOf": gen.Arr(gen.S{"anyOf": gen.Arr(s)})} }},
+		{"object+own-property+allOf[S]", func(s gen.S) gen.S {
+			return gen.S{"type": "object", "properties": gen.S{"name": gen.S{"type": "string"}}, "allOf": gen.Arr(s)}
+		}},
+		// the same composition without "type: object" beside it
+		{"allOf[S]", func(s gen.S) gen.S { return gen.S{"allOf": gen.Arr(s)} }},
+	}
+	wr := wrappers[wi]
+	type encT struct {
+		style   string
+		explode bool
+	}
+	arrEncs := []encT{{"form", true}, {"form", false}, {"spaceDelimited", false}, {"pipeDelimited", false}}
+	values := []gen.S{
+		{"tags": gen.Arr("p", "q")}, {"tags": gen.Arr("p")}, {"tags": gen.Arr("p", "q", "r"), "s": "x"},
+		{"ids": gen.Arr(1.0, 2.0, 3.0)}, {"ids": gen.Arr(1.0, 2.0, 3.0, 4.0)}, {"ids": gen.Arr(7.0), "tags": gen.Arr("p", "q")},
+		{"s": "only"}, {"ids": gen.Arr(1.0, 2.0), "tags": gen.Arr("p q", "r")},
+	}
+	schema := wr.wrap(base)
+	for _, te := range arrEncs {
+		for _, ie := range arrEncs {
+			encoding := gen.S{"tags": gen.S{"style": te.style, "explode": te.explode}, "ids": gen.S{"style": ie.style, "explode": ie.explode}}
+			d, err := loadDoc(c06Doc(gen.S{"application/x-www-form-urlencoded": gen.S{"schema": schema, "encoding": encoding}}, true))
+			if err != nil {
+				c.Note("encoding doc rejected: %v", err)
+				continue
+			}
+			router, err := newGorilla(d)
+			if err != nil {
+				continue
+			}
+			for _, v := range values {
+				ref := refeval.Eval(base, map[string]any(v), refeval.Opts{Mode: refeval.AsRequest})
+				if ref.V == refeval.Contested {
+					continue
+				}
+				want := ref.V == refeval.Accept
+				var pairs []gen.KV
+				for _, k := range sortedKeys(v) {
+					switch k {
+					case "tags":
+						pairs = append(pairs, gen.QueryPairs(k, te.style, te.explode, v[k], nil)...)
+					case "ids":
+						pairs = append(pairs, gen.QueryPairs(k, ie.style, ie.explode, v[k], nil)...)
+					case "o":
+						pairs = append(pairs, gen.QueryPairs(k, "deepObject", true, v[k], nil)...)
+					default:
+						pairs = append(pairs, gen.KV{K: k, V: gen.Prim(v[k])})
+					}
+				}
+				body := rawQuery(pairs)
+				desc := fmt.Sprintf("urlencoded with encodings schema=%s tags=%s/%v ids=%s/%v value=%s body=%s", wr.name, te.style, te.explode, ie.style, ie.explode, gen.Canon(v), body)
+				c.Begin(desc)
+				c.Eval()
+				verr, pi := c06Validate(router, "application/x-www-form-urlencoded", []byte(body), &openapi3filter.Options{})
+				w := c06Witness{Part: "urlencoded-encoding", Header: "application/x-www-form-urlencoded", Body: body, Required: true, Got: fmt.Sprint(verr), Want: ref.V.String()}
+				w.Schema, _ = json.Marshal(gen.S{"schema": schema, "encoding": encoding})
+				if pi != nil {
+					c.Violate(core.PanicFeatures(pi), w, pi.Stack)
+					continue
+				}
+				c.Distinct(desc)
+				c.Cover("encodings", wr.name+"/"+ref.V.String())
+				if (verr == nil) != want {
+					kind := "encoded_form_false_accept"
+					if want {
+						kind = "encoded_form_false_reject"
+					}
+					which := ""
+					for _, k := range sortedKeys(v) {
+						which += k + ","
+					}
+					c.Violate(map[string]string{"kind": kind, "wrapper": wr.name, "tags": fmt.Sprintf("%s/%v", te.style, te.explode), "ids": fmt.Sprintf("%s/%v", ie.style, ie.explode), "properties": which, "failed": strings.Join(ref.Failed, ",")}, w,
+						fmt.Sprintf("%s\nreference=%s failed=%v library=%v", desc, ref.V, ref.Failed, verr))
+				}
+			}
+		}
+	}
 }
